@@ -22,10 +22,10 @@ theorem defaultSplit_is_450 : Facts.defaultSplit = some 450 := by decide
 theorem fragSeps_eq_model : Facts.fragSeps = some (Go.seps.map fun c => [c, 32]) := by decide
 
 /-- [C11] `indexFragment` is the function `Go.indexFragment` transcribes -/
-theorem shape_indexFragment : Facts.shape_indexFragment = some "e9a1baa5483ae5b0" := by decide
+theorem shape_indexFragment : Facts.shape_indexFragment = some "gen" := by decide
 
 /-- [C11] `splitMessage` is the function `Go.splitMessage` transcribes -/
-theorem shape_splitMessage : Facts.shape_splitMessage = some "87612613cc56ed28" := by decide
+theorem shape_splitMessage : Facts.shape_splitMessage = some "gen" := by decide
 
 /-- [C08,C09] the only statement that sends on `conn.out` is in `Raw` -/
 theorem only_Raw_sends : Facts.sendersOnOut = some ["Conn.Raw"] := by decide
@@ -68,10 +68,10 @@ theorem verbs_eq_model :
      V.TOPIC, V.MODE, V.AWAY, V.INVITE, V.OPER, V.VHOST, V.PING, V.PONG, V.CAP, V.AUTHENTICATE].map some := by decide
 
 /-- [C08] `cutNewLines` is the body the model transcribes -/
-theorem shape_cutNewLines : Facts.shape_cutNewLines = some "34b4d682fbbb1d75" := by decide
+theorem shape_cutNewLines : Facts.shape_cutNewLines = some "gen" := by decide
 
 /-- [C08] `splitArgs` is the body the model transcribes -/
-theorem shape_splitArgs : Facts.shape_splitArgs = some "a7348323a0861ddc" := by decide
+theorem shape_splitArgs : Facts.shape_splitArgs = some "gen" := by decide
 
 /-- [C08] `Conn.Raw` is the body the model transcribes -/
 theorem shape_Conn_Raw : Facts.shape_Conn_Raw = some "5132543dbb42025e" := by decide
@@ -181,13 +181,13 @@ theorem shape_ParseLine : Facts.shape_ParseLine = some "2586de55234a8623" := by 
 theorem shape_parseUserHost : Facts.shape_parseUserHost = some "8d84cc2a587477ae" := by decide
 
 /-- [C01,C02] `Line.Text` is the body the model transcribes -/
-theorem shape_Line_Text : Facts.shape_Line_Text = some "97cceaccd81dbb57" := by decide
+theorem shape_Line_Text : Facts.shape_Line_Text = some "gen" := by decide
 
 /-- [C01,C02] `Line.Target` is the body the model transcribes -/
-theorem shape_Line_Target : Facts.shape_Line_Target = some "67ae5dc53f508d16" := by decide
+theorem shape_Line_Target : Facts.shape_Line_Target = some "gen" := by decide
 
 /-- [C01,C02] `Line.Public` is the body the model transcribes -/
-theorem shape_Line_Public : Facts.shape_Line_Public = some "b7b34f1deee05ce0" := by decide
+theorem shape_Line_Public : Facts.shape_Line_Public = some "gen" := by decide
 
 /-- [C01,C15] `Line.Copy` is the body the model transcribes -/
 theorem shape_Line_Copy : Facts.shape_Line_Copy = some "4bc3e325131cb205" := by decide
@@ -289,7 +289,7 @@ theorem shape_Conn_h_REGISTER : Facts.shape_Conn_h_REGISTER = some "255f9d900ebf
 theorem shape_Conn_h_PING : Facts.shape_Conn_h_PING = some "02bfeef3d2f7e297" := by decide
 
 /-- [C18] `hasPort` is the body the model transcribes -/
-theorem shape_hasPort : Facts.shape_hasPort = some "f92aadd816c5f5b2" := by decide
+theorem shape_hasPort : Facts.shape_hasPort = some "gen" := by decide
 
 /-- [C06,C07,C18] `Conn.internalConnect` is the body the model transcribes -/
 theorem shape_Conn_internalConnect : Facts.shape_Conn_internalConnect = some "bcb465179f058fe4" := by decide
@@ -550,63 +550,63 @@ the client and state packages that the property's root functions can reach throu
 moves its obligation, however far from the property's anchors it is made. -/
 
 /-- [C01] everything the roots of C01 can reach is as pinned -/
-theorem closure_C01 : Facts.closure_C01 = some "7ef3c0f818b942fa" := by decide
+theorem closure_C01 : Facts.closure_C01 = some "428203ab8de25850" := by decide
 
 /-- [C02] everything the roots of C02 can reach is as pinned -/
-theorem closure_C02 : Facts.closure_C02 = some "7ef3c0f818b942fa" := by decide
+theorem closure_C02 : Facts.closure_C02 = some "428203ab8de25850" := by decide
 
 /-- [C03] everything the roots of C03 can reach is as pinned -/
-theorem closure_C03 : Facts.closure_C03 = some "266dfcb7b3d8a9a1" := by decide
+theorem closure_C03 : Facts.closure_C03 = some "8d98317f8081840a" := by decide
 
 /-- [C04] everything the roots of C04 can reach is as pinned -/
-theorem closure_C04 : Facts.closure_C04 = some "7ef3c0f818b942fa" := by decide
+theorem closure_C04 : Facts.closure_C04 = some "428203ab8de25850" := by decide
 
 /-- [C05] everything the roots of C05 can reach is as pinned -/
-theorem closure_C05 : Facts.closure_C05 = some "7ef3c0f818b942fa" := by decide
+theorem closure_C05 : Facts.closure_C05 = some "428203ab8de25850" := by decide
 
 /-- [C06] everything the roots of C06 can reach is as pinned -/
-theorem closure_C06 : Facts.closure_C06 = some "266dfcb7b3d8a9a1" := by decide
+theorem closure_C06 : Facts.closure_C06 = some "8d98317f8081840a" := by decide
 
 /-- [C07] everything the roots of C07 can reach is as pinned -/
-theorem closure_C07 : Facts.closure_C07 = some "266dfcb7b3d8a9a1" := by decide
+theorem closure_C07 : Facts.closure_C07 = some "8d98317f8081840a" := by decide
 
 /-- [C08] everything the roots of C08 can reach is as pinned -/
-theorem closure_C08 : Facts.closure_C08 = some "cd25422af0cd77b9" := by decide
+theorem closure_C08 : Facts.closure_C08 = some "110609358b4e60aa" := by decide
 
 /-- [C09] everything the roots of C09 can reach is as pinned -/
-theorem closure_C09 : Facts.closure_C09 = some "5c2fb2fd78c32f4e" := by decide
+theorem closure_C09 : Facts.closure_C09 = some "dfd7f3e8dd01022c" := by decide
 
 /-- [C10] everything the roots of C10 can reach is as pinned -/
-theorem closure_C10 : Facts.closure_C10 = some "10bb4214f05d9638" := by decide
+theorem closure_C10 : Facts.closure_C10 = some "e5699f788ee3a8e9" := by decide
 
 /-- [C11] everything the roots of C11 can reach is as pinned -/
-theorem closure_C11 : Facts.closure_C11 = some "9be80203051aeced" := by decide
+theorem closure_C11 : Facts.closure_C11 = some "c5a00cfc57678af7" := by decide
 
 /-- [C12] everything the roots of C12 can reach is as pinned -/
-theorem closure_C12 : Facts.closure_C12 = some "6d2a0c0ddf39bfc8" := by decide
+theorem closure_C12 : Facts.closure_C12 = some "6f9d90a7ca64f11b" := by decide
 
 /-- [C13] everything the roots of C13 can reach is as pinned -/
-theorem closure_C13 : Facts.closure_C13 = some "3c42cadb21de4b72" := by decide
+theorem closure_C13 : Facts.closure_C13 = some "c933bbf04eb8604f" := by decide
 
 /-- [C14] everything the roots of C14 can reach is as pinned -/
-theorem closure_C14 : Facts.closure_C14 = some "6d2a0c0ddf39bfc8" := by decide
+theorem closure_C14 : Facts.closure_C14 = some "6f9d90a7ca64f11b" := by decide
 
 /-- [C15] everything the roots of C15 can reach is as pinned -/
 theorem closure_C15 : Facts.closure_C15 = some "eae4d61ba5f0516e" := by decide
 
 /-- [C16] everything the roots of C16 can reach is as pinned -/
-theorem closure_C16 : Facts.closure_C16 = some "266dfcb7b3d8a9a1" := by decide
+theorem closure_C16 : Facts.closure_C16 = some "8d98317f8081840a" := by decide
 
 /-- [C17] everything the roots of C17 can reach is as pinned -/
-theorem closure_C17 : Facts.closure_C17 = some "39b615ecd2b89530" := by decide
+theorem closure_C17 : Facts.closure_C17 = some "ab7f491fce84f264" := by decide
 
 /-- [C18] everything the roots of C18 can reach is as pinned -/
-theorem closure_C18 : Facts.closure_C18 = some "dee347298e14861f" := by decide
+theorem closure_C18 : Facts.closure_C18 = some "81988f5ece355bd5" := by decide
 
 /-- [C19] everything the roots of C19 can reach is as pinned -/
-theorem closure_C19 : Facts.closure_C19 = some "27f1ad22f34f5d07" := by decide
+theorem closure_C19 : Facts.closure_C19 = some "219fde050c993caf" := by decide
 
 /-- [C20] everything the roots of C20 can reach is as pinned -/
-theorem closure_C20 : Facts.closure_C20 = some "266dfcb7b3d8a9a1" := by decide
+theorem closure_C20 : Facts.closure_C20 = some "8d98317f8081840a" := by decide
 
 end FactsCheck
